@@ -1355,6 +1355,16 @@ coap_io_prepare_io_lkd(coap_context_t *ctx,
     coap_retransmit(ctx, coap_pop_next(ctx));
     nextpdu = coap_peek_next(ctx);
   }
+#if COAP_SERVER_SUPPORT
+  if (ctx->observe_pending) {
+    /*
+     * A message given up above may have freed the NSTART slot that a deferred
+     * Observe notification is waiting for - nothing else would wake us up.
+     */
+    coap_check_notify_lkd(ctx);
+    nextpdu = coap_peek_next(ctx);
+  }
+#endif /* COAP_SERVER_SUPPORT */
   if (nextpdu && (timeout == 0 ||
                   nextpdu->t - (now - ctx->sendqueue_basetime) < timeout))
     timeout = nextpdu->t - (now - ctx->sendqueue_basetime);
